@@ -29,7 +29,7 @@ RULE = ('One case = one generated chart + one input history; the base build (API
         'states of equal depth AND whose permuted builds really changed a sibling order.')
 ASSUMPTIONS = ['order of guard *evaluation* is not part of a macro step and is not compared',
                'generator domain of DESIGN §2; hash seeds sampled, not enumerated']
-REQUIRED_COUNTERS = ['edited_variants', 'variant_runs_compared', 'yaml_variants', 'api_variants', 'hashseed_children', 'hashseed_digests_compared',
+REQUIRED_COUNTERS = ['repetitions_with_the_same_initial_context_object', 'cases_with_guards_that_raise', 'edited_variants', 'variant_runs_compared', 'yaml_variants', 'api_variants', 'hashseed_children', 'hashseed_digests_compared',
                      'cases_with_same_depth_exits']
 
 MODES = [('orth', 4, dict(p_orth=0.5, p_state_send=0.15)), ('clash', 2, dict(p_orth=0.4)),
@@ -48,18 +48,39 @@ def make_case(rnd, tier):
     g = dict(T['gen'])
     g.update(kw)
     ch = gen_chart(rnd, mode=mode, **g)
+    if rnd.random() < 0.25:
+        # some guards cannot be evaluated: the step fails, and with the same kind of error whatever the declaration order
+        for t in ch['transitions']:
+            if t['event'] is not None and rnd.random() < 0.2:
+                t['raising_guard'] = True
     script = gen_script(rnd, ch['events'], T['steps'])
     valseed = rnd.random()
     p_true = rnd.choice((0.3, 0.6, 0.9, 1.0))
     return ch, script, valseed, p_true
 
 
-def run_build(sc, tmap, script, valseed, p_true, ren=None):
+class Coder07(build.Coder):
+    bump_v = True       # every executable fragment rebinds a variable of the context
+
+
+CODER = Coder07()
+
+
+def run_build(sc, tmap, script, valseed, p_true, ren=None, shared=None):
+    """``shared``: (Probes, dict) of an earlier run - the very same initial_context dictionary is handed to a new interpreter
+    (same arguments, same process): the run must be the same, and the caller's dictionary must still be what it was."""
     from sismic.interpreter import Interpreter
-    pr = Probes(val=None)
+    if shared is None:
+        pr = Probes(val=None)
+        ctx = pr.context(v=0)
+    else:
+        pr, ctx = shared
+        del pr.log[:]
+        pr.uid, pr.cond_count = 1000, 0        # (the probes' own counters are the harness's, not the statechart's)
     val = make_val(valseed, p_true)
     pr.val = val
-    it = Interpreter(sc, initial_context=pr.context())
+    run_build.last = (pr, ctx)
+    it = Interpreter(sc, initial_context=ctx)
     r = Runner(it, tmap, ren=ren, log=pr.log)
     obs = []
     k = 0
@@ -88,18 +109,18 @@ def permuted_order(rnd, ch):
 
 def tmap_host(ch, host):
     # the guest root was renamed to SLOT: match on action code only (distinct ids per transition)
-    by_action = {(build.Coder().action(ch, t) or '').strip(): t['id'] for t in ch['transitions']}
+    by_action = {(CODER.action(ch, t) or '').strip(): t['id'] for t in ch['transitions']}
     return {id(tr): by_action[(tr.action or '').strip()] for tr in host.transitions}
 
 
 def base_digests(ch, script, valseed, p_true):
-    sc, tmap = build.build_api(ch)
+    sc, tmap = build.build_api(ch, coder=CODER)
     obs = run_build(sc, tmap, script, valseed, p_true)
     from sismic.model import CompoundState, BasicState, Statechart
     host = Statechart('host')
     host.add_state(CompoundState('HOST', initial='SLOT'), None)
     host.add_state(BasicState('SLOT'), 'HOST')
-    guest, _ = build.build_api(ch)
+    guest, _ = build.build_api(ch, coder=CODER)
     host.copy_from_statechart(guest, source=ch['root'], replace='SLOT')
     obs_h = run_build(host, tmap_host(ch, host), script, valseed, p_true)
     return obs, digest(obs), digest(obs_h)
@@ -110,6 +131,8 @@ def run_case(acc, rnd, tier, case):
     ch, script, valseed, p_true = make_case(rnd, tier)
     tr = Tree(ch)
     st = ch['states']
+    if any(t.get('raising_guard') for t in ch['transitions']):
+        acc.count('cases_with_guards_that_raise')
     base, d_base, d_host = base_digests(ch, script, valseed, p_true)
     acc.extra.setdefault('_digests', {})[str(case)] = [d_base, d_host]
     wit = dict(chart=ch, script=script, p_true=p_true)
@@ -131,17 +154,29 @@ def run_case(acc, rnd, tier, case):
         acc.count('cases_with_multi_transition_steps')
     changed_sibling_order = False
     # (b) repetition in the same process
-    sc, tmap = build.build_api(ch)
+    sc, tmap = build.build_api(ch, coder=CODER)
     rep = run_build(sc, tmap, script, valseed, p_true)
     acc.count('variant_runs_compared')
     if not compare(acc, base, rep, 'repeat-differs', 'same build, same inputs, same process', wit):
+        return
+    shared = run_build.last
+    before = dict(shared[1])
+    sc, tmap = build.build_api(ch, coder=CODER)
+    rep = run_build(sc, tmap, script, valseed, p_true, shared=shared)
+    acc.count('repetitions_with_the_same_initial_context_object')
+    if not compare(acc, base, rep, 'repeat-differs', 'same inputs, same process, the initial_context dictionary of the previous run given '
+                   'again', wit):
+        return
+    if dict(shared[1]) != before or before.get('v') != 0:
+        acc.violation('C07:repeat-differs', "the caller's initial_context dictionary was changed by the run: v=%r, keys added %r"
+                      % (shared[1].get('v'), sorted(set(shared[1]) - set(before))), wit)
         return
     # (a) permuted declarations
     for v in range(T['perms']):
         trans = list(ch['transitions'])
         rnd.shuffle(trans)
         if v % 3 == 2:
-            r_ = build.build_edited(ch, rnd)
+            r_ = build.build_edited(ch, rnd, coder=CODER)
             if r_ is None:
                 continue
             sc, tmap, detours = r_
@@ -151,7 +186,7 @@ def run_case(acc, rnd, tier, case):
             changed_sibling_order = True
         elif v % 2 == 0:
             order = permuted_order(rnd, ch)
-            sc, tmap = build.build_api(ch, order=order, transitions=trans)
+            sc, tmap = build.build_api(ch, coder=CODER, order=order, transitions=trans)
             acc.count('api_variants')
             what = 'API build with permuted add_state/add_transition order'
             for n, s in st.items():
@@ -168,7 +203,7 @@ def run_case(acc, rnd, tier, case):
                 child_order[n] = kids
                 if kids != [x for x in ch['order'] if st[x]['parent'] == n]:
                     changed_sibling_order = True
-            sc, tmap = build.build_yaml(ch, child_order=child_order, transitions=trans)
+            sc, tmap = build.build_yaml(ch, coder=CODER, child_order=child_order, transitions=trans)
             acc.count('yaml_variants')
             what = 'YAML build with permuted sibling order / transition order'
             extra = dict(child_order=child_order, transitions=[t['id'] for t in trans])
